@@ -65,10 +65,9 @@ class Memo:
         Any :
             The results of calling the function with path.
         """
-        if path in self.cache and os.path.exists(path):
-            self.counter += 1
-            return self.cache[path]
         result = self.func(path)
+        if path in self.cache and self.cache[path] == result:
+            self.counter += 1
         self.cache[path] = result
         return result
 
